@@ -266,7 +266,7 @@ impl Ctx {
         cov.insert("rule".into(), json!(rule));
         cov.insert("samples".into(), json!(g.samples));
         cov.insert("exhaustive".into(), json!(exhaustive));
-        if states > 0 || transitions > 0 {
+        if states > 0 && transitions > 0 {
             cov.insert("states".into(), json!(states));
             cov.insert("transitions".into(), json!(transitions));
             cov.insert("traces_validated_against_impl".into(), json!(traces));
